@@ -37,6 +37,14 @@ class BallCountHandler(BallDeviceStateHandler):
         self._ball_count_changed_futures.append(future)
         return future
 
+    def incoming_balls_changed(self):
+        """Wake up sources which wait for room in this device because the number of incoming balls changed."""
+        for future in self._ball_count_changed_futures:
+            if not future.done():
+                future.set_result(self._ball_count)
+
+        self._ball_count_changed_futures = []
+
     def stop(self):
         """Stop counter."""
         super().stop()
